@@ -11,6 +11,7 @@ def evaluate(prop, provider=None, tier="quick"):
     rep = Report(prop, tier, LEVEL.get(prop, "other"))
     model = Model(provider)
     mod.run(model, rep, tier)
+    withhold_unread(rep, model)
     # A new optional parameter is analysed at its default (sa/canon.py).  The effect-order, well-formedness and purity properties
     # quantify over *every* call, also one that uses the new parameter: for them the rules run a second time on the tree with the
     # parameter left in.  What the second run finds is reported; what it cannot read is not held against the code (the first run stands).
@@ -29,6 +30,55 @@ def evaluate(prop, provider=None, tier="quick"):
         except Exception:
             pass
     return rep, model
+
+
+def withhold_unread(rep, model):
+    """A finding anchored in a function that hands part of its work to a function or class the inventory does not know - one the canonical
+    form could not write out - is a finding about code that was only partly read.  It is withheld as an analysis error (with its text): a
+    verdict needs the whole function."""
+    import ast
+    import os
+    new = getattr(model, "new_names", None)
+    if not new or os.environ.get("SYSLOSS_SA_NO_WITHHOLD"):
+        return
+    keep = []
+    for f in rep.findings:
+        parts = f.construct.split(" ")[0].split("/")[0].split(".")
+        fn = None
+        try:
+            if len(parts) >= 3 and parts[1] in model.classes:
+                fn = model.own_method(parts[1], parts[2])
+            elif len(parts) >= 2 and (parts[0], parts[1]) in model.funcs:
+                fn = model.funcs[(parts[0], parts[1])]
+        except Exception:
+            fn = None
+        called = set()
+        if fn is not None:
+            # through the functions of the package it calls by name (two levels deep is where helpers of helpers live)
+            by_name = {}
+            for (m_, n_), f_ in model.funcs.items():
+                by_name.setdefault(n_, []).append(f_)
+            for cn_, (m_, cnode) in model.classes.items():
+                for f_ in cnode.body:
+                    if isinstance(f_, ast.FunctionDef):
+                        by_name.setdefault(f_.name, []).append(f_)
+            seen, todo = {id(fn)}, [(fn, 0)]
+            while todo:
+                g, depth = todo.pop()
+                for c in ast.walk(g):
+                    if isinstance(c, ast.Call):
+                        nm = c.func.id if isinstance(c.func, ast.Name) else (c.func.attr if isinstance(c.func, ast.Attribute) and isinstance(c.func.value, ast.Name) and c.func.value.id in ("self", "cls") else None)
+                        if nm in new:
+                            called.add(nm)
+                        elif nm in by_name and depth < 2 and len(by_name[nm]) == 1 and id(by_name[nm][0]) not in seen:
+                            seen.add(id(by_name[nm][0]))
+                            todo.append((by_name[nm][0], depth + 1))
+        if called:
+            rep.errors.append("%s %s: finding withheld - %s calls %s, which the inventory does not know and which could not be written out (%s)" % (
+                f.rule, f.construct, parts[-1], ", ".join(sorted(called)), f.message[:160]))
+        else:
+            keep.append(f)
+    rep.findings[:] = keep
 
 
 def verdict(prop, provider=None):
